@@ -77,3 +77,15 @@ Theorem c11_lenient_logout_refuted :
   thread_done s 1 (OStatus 302) /\ exists e, store_get (m_w s) 1 = Some e.
 Proof. exact lenient_logout_reports_success. Qed.
 Print Assumptions c11_lenient_logout_refuted.
+
+(** Known finding: the refresh-lock acquisition is the one store operation without a retry wrapper. A single transient store
+    fault there makes [Refresh] fail; the request falls back to the tokens it read, which have expired here, and is served without a
+    token although the session is valid and the very same request without the fault is served with the refreshed token. *)
+Theorem c11_lock_fault_not_absorbed_refuted :
+  let pre := [ELogin 1 2; ETick (3601 * second); ESpawn 1 KProxy tk; ERun 1 FNone] in
+  let rest := [ERun 1 FNone; ERun 1 FNone; ERun 1 FNone; ERun 1 FNone; ERun 1 FNone; ERun 1 FNone] in
+  let faulted := run_events (cfg_redis true true true) (init_state 3600) (pre ++ [ERun 1 FStore] ++ rest) in
+  let clean := run_events (cfg_redis true true true) (init_state 3600) (pre ++ rest) in
+  thread_done faulted 1 (OForward None None) /\ thread_done clean 1 (OForward (Some 2%N) None).
+Proof. vm_compute. split; eexists; split; reflexivity. Qed.
+Print Assumptions c11_lock_fault_not_absorbed_refuted.
